@@ -34,7 +34,7 @@ for d in sorted(glob.glob(os.path.join(V, "seeded", "*"))):
     cnt[v] = cnt.get(v, 0) + 1
     rows.append("| %s | %s | %s | %s | %s |" % (os.path.basename(d), clean(m.get("summary"), 170), clean(m.get("needs"), 130), first, v))
 out = ["### 8.5 Seeded changes and which checks catch them (generated from seeded/*/meta.json)\n",
-       "Three independent series (a, b, c) of three changes per property, written by sub-agents that saw only the property text, "
+       "Four independent series (a, b, c, d) of three changes per property, written by sub-agents that saw only the property text, "
        "a scratch worktree and the build kit; each confirmed (demo passes on HEAD, fails with the patch; pinned baseline passes with the patch) "
        "before being filed. `first` = verdict of our check when the change was first run against it, `now` = verdict after the checks were "
        "strengthened. Totals now: " + ", ".join("%s %d" % kv for kv in sorted(cnt.items())) + ".\n",
@@ -42,7 +42,13 @@ out = ["### 8.5 Seeded changes and which checks catch them (generated from seede
 g85 = "\n".join(out)
 p = os.path.join(V, "DESIGN.md")
 s = open(p).read()
-for tag, body in (("84", g84), ("85", g85)):
+# 8.3a: final per-property notes written by the owners of each check (design.d/Cxx.md)
+notes = sorted(glob.glob(os.path.join(V, "design.d", "C*.md")))
+g83 = "### 8.3a Per-property status as built — FINAL notes (assembled from design.d/Cxx.md; where 8.3 above and a note here differ, the note is right)\n\n" + \
+      "\n\n".join(open(n).read().strip() for n in notes)
+if "<!-- GEN:83 -->" not in s:
+    s = s.replace("<!-- GEN:84 -->", "<!-- GEN:83 -->\n<!-- /GEN:83 -->\n\n<!-- GEN:84 -->")
+for tag, body in (("83", g83), ("84", g84), ("85", g85)):
     a, b = "<!-- GEN:%s -->" % tag, "<!-- /GEN:%s -->" % tag
     block = a + "\n" + body + "\n" + b
     if a in s:
